@@ -117,51 +117,7 @@ func c03(c *Check) {
 	}
 
 	c.Rule("C03/hook-failure-not-swallowed", "CallEVMWithData: ApplyMessage errors reject; a PostTxProcessing error marks the response failed; every success return is dominated by !res.Failed()", 4)
-	em := Macros{"MSG": "core/types.NewMessage($2, $3, iface:packet/types.AccountKeeper.GetSequence($0.accountKeeper, $1, go-ethereum/common.(Address).Bytes($2))#0, math/big.NewInt(0), 25000000, math/big.NewInt(0), math/big.NewInt(0), math/big.NewInt(0), $4, nil, true)"}
-	evm := c.F(pkKeeper + "Keeper.CallEVMWithData")
-	efa := c.P.FA(evm)
-	var apply, post string
-	for _, cs := range c.P.CallsIn(evm) {
-		if strings.HasSuffix(cs.Name, "EVMKeeper.ApplyMessage") {
-			apply = fa0(c, cs)
-			args := c.P.ArgExprs(cs)
-			c.Req(args[1].String() == "$1", "C03/hook-failure-not-swallowed", "ApplyMessage.ctx", cs.Ins.Pos(), "", "ApplyMessage context is "+args[1].String())
-		}
-		if strings.HasSuffix(cs.Name, "EVMKeeper.PostTxProcessing") {
-			post = fa0(c, cs)
-		}
-	}
-	_ = em
-	if apply == "" || post == "" {
-		c.Bad("C03/hook-failure-not-swallowed", "ApplyMessage/PostTxProcessing present", evm.Pos(), "CallEVMWithData no longer calls ApplyMessage and PostTxProcessing")
-	} else {
-		failed := "types.(*MsgEthereumTxResponse).Failed(" + apply + "#0)"
-		full := ""
-		for s := range efa.GuardSet() {
-			if strings.Contains(s, failed) && strings.HasPrefix(s, "reject ") && !strings.HasPrefix(s, "reject !") {
-				full = strings.TrimPrefix(s, "reject ")
-			}
-		}
-		c.Req(full != "", "C03/hook-failure-not-swallowed", "reject res.Failed()", evm.Pos(), "", "no rejecting branch on res.Failed()")
-		c.HasGuard(evm, "C03/hook-failure-not-swallowed", "apply-error", Macros{}, "reject ("+apply+"#1 != nil)")
-		if full != "" {
-			c.SuccessUnder(evm, "C03/hook-failure-not-swallowed", Macros{}, "!"+full, "("+apply+"#1 == nil)")
-		}
-		// the hook-error branch must mark the response failed
-		marked := false
-		for _, b := range evm.Blocks {
-			for _, ins := range b.Instrs {
-				if st, ok := ins.(*ssa.Store); ok {
-					if efa.X.E(st.Addr).String() == apply+"#0.VmError" && efa.PathCondStrings(b)["("+post+" != nil)"] {
-						if k, isC := st.Val.(*ssa.Const); !isC || k.Value.ExactString() != `""` {
-							marked = true
-						}
-					}
-				}
-			}
-		}
-		c.Req(marked, "C03/hook-failure-not-swallowed", "hook error marks response failed", evm.Pos(), "res.VmError set under PostTxProcessing != nil", "no store to res.VmError on the PostTxProcessing error edge: a failing hook would be swallowed")
-	}
+	evmHookRule(c, "C03/hook-failure-not-swallowed")
 
 	c.Rule("C03/ack-outcome", "msg server Acknowledgement: after a verified ack, exactly one of setAckStatus(…,1) [code==0] / setAckStatus(…,2) [code!=0], then sendPacketFeeToRelayer and OnAcknowledgePacket, each once, each with its error propagated, all dominated by AcknowledgePacket==nil and both decodes", 20)
 	ackSpec(c, "C03/ack-outcome")
@@ -213,4 +169,87 @@ func ackSpec(c *Check, rule string) {
 		},
 		Success: pre[:1],
 	})
+}
+
+// evmHookRule: structure of CallEVMWithData around the post-transaction hook (shared by C03 and C04).
+func evmHookRule(c *Check, rule string) {
+	em := Macros{"MSG": "core/types.NewMessage($2, $3, iface:packet/types.AccountKeeper.GetSequence($0.accountKeeper, $1, go-ethereum/common.(Address).Bytes($2))#0, math/big.NewInt(0), 25000000, math/big.NewInt(0), math/big.NewInt(0), math/big.NewInt(0), $4, nil, true)"}
+	evm := c.F(pkKeeper + "Keeper.CallEVMWithData")
+	efa := c.P.FA(evm)
+	var apply, post string
+	for _, cs := range c.P.CallsIn(evm) {
+		if strings.HasSuffix(cs.Name, "EVMKeeper.ApplyMessage") {
+			apply = fa0(c, cs)
+			args := c.P.ArgExprs(cs)
+			c.Req(args[1].String() == "$1", rule, "ApplyMessage.ctx", cs.Ins.Pos(), "", "ApplyMessage context is "+args[1].String())
+		}
+		if strings.HasSuffix(cs.Name, "EVMKeeper.PostTxProcessing") {
+			post = fa0(c, cs)
+		}
+	}
+	_ = em
+	if apply == "" || post == "" {
+		c.Bad(rule, "ApplyMessage/PostTxProcessing present", evm.Pos(), "CallEVMWithData no longer calls ApplyMessage and PostTxProcessing")
+	} else {
+		failed := "types.(*MsgEthereumTxResponse).Failed(" + apply + "#0)"
+		full := ""
+		for s := range efa.GuardSet() {
+			if strings.Contains(s, failed) && strings.HasPrefix(s, "reject ") && !strings.HasPrefix(s, "reject !") {
+				full = strings.TrimPrefix(s, "reject ")
+			}
+		}
+		c.Req(full != "", rule, "reject res.Failed()", evm.Pos(), "", "no rejecting branch on res.Failed()")
+		c.HasGuard(evm, rule, "apply-error", Macros{}, "reject ("+apply+"#1 != nil)")
+		if full != "" {
+			c.SuccessUnder(evm, rule, Macros{}, "!"+full, "("+apply+"#1 == nil)")
+		}
+		// the hook-error branch must mark the response failed
+		marked := false
+		for _, b := range evm.Blocks {
+			for _, ins := range b.Instrs {
+				if st, ok := ins.(*ssa.Store); ok {
+					if efa.X.E(st.Addr).String() == apply+"#0.VmError" && efa.PathCondStrings(b)["("+post+" != nil)"] {
+						if k, isC := st.Val.(*ssa.Const); !isC || k.Value.ExactString() != `""` {
+							marked = true
+						}
+					}
+				}
+			}
+		}
+		c.Req(marked, rule, "hook error marks response failed", evm.Pos(), "res.VmError set under PostTxProcessing != nil", "no store to res.VmError on the PostTxProcessing error edge: a failing hook would be swallowed")
+		// …and the failure test must be evaluated AFTER the hook ran: from the hook-error edge no success return may be
+		// reachable without passing through a branch on res.Failed()
+		for _, i := range efa.ifs {
+			ce := efa.X.E(i.Cond).String()
+			var succ *ssa.BasicBlock
+			if ce == "("+post+" != nil)" {
+				succ = i.Block().Succs[0]
+			} else if ce == "("+post+" == nil)" {
+				succ = i.Block().Succs[1]
+			}
+			if succ == nil {
+				continue
+			}
+			seen := map[*ssa.BasicBlock]bool{succ: true}
+			st := []*ssa.BasicBlock{succ}
+			escaped := false
+			for len(st) > 0 {
+				b := st[len(st)-1]
+				st = st[:len(st)-1]
+				if t, ok := b.Instrs[len(b.Instrs)-1].(*ssa.If); ok && strings.Contains(efa.X.E(t.Cond).String(), failed) {
+					continue // a res.Failed() test guards everything behind it
+				}
+				if _, ok := b.Instrs[len(b.Instrs)-1].(*ssa.Return); ok && efa.exit[b.Index] != "reject" {
+					escaped = true
+				}
+				for _, s2 := range b.Succs {
+					if !seen[s2] {
+						seen[s2] = true
+						st = append(st, s2)
+					}
+				}
+			}
+			c.Req(!escaped, rule, "hook error edge cannot reach success without a res.Failed() test", i.Cond.Pos(), "", "a success return is reachable from the PostTxProcessing error edge without re-testing res.Failed(): the hook failure is logged but the call reports success (EVM effects stay committed)")
+		}
+	}
 }
